@@ -14,8 +14,10 @@ FROMITER = [("fromiter:0", 9, 12), ("fromiter:1", 10, 13), ("fromiter:2", 11, 14
 FOREACH = [("foreach", 9, 12)]
 ALL = RELAYS + TAKES + MERGE + CONCAT + COMBINE + FLATTEN + SHARE + FROMITER + FOREACH
 
+# beyond the properties' domain (concat / combine / flatten members that greet late): watched for panics only, under C17
+LATE = [("concatL:2", 9, 12), ("concatL:3", 8, 10), ("combineL:2", 8, 11), ("flattenL", 9, 12)]
 INSTS = {
-    "C01": ALL, "C02": ALL, "C03": ALL, "C04": ALL, "C05": ALL, "C17": ALL,
+    "C01": ALL, "C02": ALL, "C03": ALL, "C04": ALL, "C05": ALL, "C17": ALL + LATE,
     "C07": RELAYS + TAKES,
     "C08": MERGE, "C09": CONCAT, "C10": COMBINE, "C11": FLATTEN, "C12": SHARE,
     "C14": RELAYS + [t for t in TAKES if t[0] != "take:0"] + CONCAT + FLATTEN + FROMITER,   # take(0) is outside the property (n >= 1)
